@@ -23,7 +23,7 @@ func zzBaseWorld() *zzWorld {
 }
 
 // VerifC01_PartialEqualsFull: full sync of a cluster with one or two ingresses, commit, then one
-// batch (ingress added / updated / deleted, endpoints changed, secret content changed) applied
+// batch (ingress added / updated / deleted, endpoints changed, secret or default certificate content changed) applied
 // through the incremental path. The resulting model must equal a fresh full sync of the final
 // cluster, and every host/backend/acme storage the incremental path did not flag as changed must
 // be exactly as it was committed (an in-place change of a clean object never reaches disk).
@@ -48,8 +48,13 @@ func VerifC01_PartialEqualsFull() {
 	link := func(res convtypes.ResourceType, name string) {
 		changed.Links[res] = append(changed.Links[res], name)
 	}
-	nevents := nd.Param("EVENTS", 5)
-	switch ev := nd.Choice("event", nevents); ev {
+	nevents := nd.Param("EVENTS", 6)
+	ev := nd.Choice("event", nevents)
+	if nd.Param("SECRETEVENTS", 0) == 1 {
+		// only the Secret content events (used by the C15 check)
+		ev = 4 + nd.Choice("secretevent", 2)
+	}
+	switch ev {
 	case 0: // add i2
 		nd.Assume(!hasI2)
 		i2 = zzIngress("i2", 2, "i2new")
@@ -74,6 +79,9 @@ func VerifC01_PartialEqualsFull() {
 	case 4: // secret t1 gets new content
 		w.secrets["default/t1"] = "v2"
 		link(convtypes.ResourceSecret, "default/t1")
+	case 5: // the default certificate gets new content (same Secret, same file name)
+		w.secrets["system/default"] = "v2"
+		link(convtypes.ResourceSecret, "system/default")
 	}
 	c1 := sys.converter(changed)
 	if c1.NeedFullSync() {
